@@ -54,9 +54,31 @@ fn main() {
                 Some(n) => spec.families.iter().find(|f| f.name == n).unwrap_or_else(|| usage()),
                 None => &spec.families[0],
             };
-            let o = runner::run_family(f.f, chooser::Chooser::generate(seed), &runner::RunCtx { log: args.iter().any(|a| a == "--log"), ..Default::default() });
+            let o = runner::run_family(f.f, chooser::Chooser::generate(seed), &runner::RunCtx { log: args.iter().any(|a| a == "--log"), keep_trace_text: args.iter().any(|a| a == "--trace"), ..Default::default() });
             for l in &o.log {
                 println!("{}", l);
+            }
+            if let Some(n) = arg(&args, "--repeat").and_then(|s| s.parse::<u32>().ok()) {
+                for k in 0..n {
+                    let r = runner::run_family(f.f, chooser::Chooser::generate(seed), &runner::RunCtx { keep_trace_text: args.iter().any(|a| a == "--trace"), log: args.iter().any(|a| a == "--log"), ..Default::default() });
+                    if r.log != o.log {
+                        std::fs::write("/tmp/repeat_a.log", o.log.join("\n")).unwrap();
+                        std::fs::write("/tmp/repeat_b.log", r.log.join("\n")).unwrap();
+                        let i = o.log.iter().zip(r.log.iter()).position(|(a, b)| a != b).unwrap_or(o.log.len().min(r.log.len()));
+                        println!("REPEAT {} differs: items {} vs {}; first diff at {}:", k, o.log.len(), r.log.len(), i);
+                        for j in i.saturating_sub(3)..(i + 4) {
+                            println!("   first: {:?}\n   again: {:?}", o.log.get(j), r.log.get(j));
+                        }
+                        break;
+                    }
+                }
+            }
+            if args.iter().any(|a| a == "--replaycheck") {
+                let r = runner::run_family(f.f, chooser::Chooser::replay(o.choices.clone()), &runner::RunCtx { keep_trace_text: true, ..Default::default() });
+                let i = o.log.iter().zip(r.log.iter()).position(|(a, b)| a != b).unwrap_or(o.log.len().min(r.log.len()));
+                println!("REPLAYCHECK gen items={} replay items={} first diff at {}: gen=[{:?}] replay=[{:?}] choices gen={} replay={}", o.log.len(), r.log.len(), i, o.log.get(i), r.log.get(i), o.choices.len(), r.choices.len());
+                let j = o.choices.iter().zip(r.choices.iter()).position(|(a, b)| a != b);
+                println!("first differing choice index: {:?}", j);
             }
             println!("steps={} sim={}ms choices={} limit={:?} panic={:?} faults={:?} probes={:?}", o.steps, o.sim_ns / 1_000_000, o.choices.len(), o.hit_limit, o.panic, o.faults.m, o.probes.m);
             for v in &o.violations {
